@@ -1,6 +1,7 @@
 package rules
 
 import (
+	"fmt"
 	"go/token"
 	"go/types"
 	"strings"
@@ -427,4 +428,85 @@ func exclusiveUnit(c *core.Ctx, root *ssa.Function) map[*ssa.Function]bool {
 		}
 	}
 	return in
+}
+
+// ruleMailboxSerial: the goroutine that drains an object's mailbox handles one
+// mail at a time: the Receiver is invoked by a plain call inside the receive
+// loop, the mailbox starts exactly one goroutine, and that goroutine starts no
+// other.  Per-object serialisation is what orders property writes and
+// directory operations.
+func ruleMailboxSerial(c *core.Ctx, rule string) {
+	fn := c.Func("bus", "", "NewMailBox")
+	if fn == nil {
+		// by role: a function of package bus returning the MailBox type
+		for _, f := range srcFuncsOfPkg(c, "bus") {
+			if f.Parent() == nil && f.Signature.Results().Len() == 1 && core.TypeIs(f.Signature.Results().At(0).Type(), "bus", "MailBox") && len(f.Params) == 1 {
+				fn = f
+			}
+		}
+	}
+	if fn == nil {
+		c.Undecided(rule, "bus.NewMailBox", token.NoPos, "anchor not found")
+		return
+	}
+	ruleSerialDrain(c, rule, fn)
+}
+
+// ruleSerialDrain: fn starts exactly one goroutine that hands the messages of
+// a queue to a Receiver one at a time (plain call in the receive loop, no
+// further goroutine).
+func ruleSerialDrain(c *core.Ctx, rule string, fn *ssa.Function) {
+	key := core.FuncKey(fn)
+	var gos []*ssa.Go
+	for _, call := range core.Calls(fn) {
+		if g, ok := call.(*ssa.Go); ok {
+			gos = append(gos, g)
+		}
+	}
+	if len(gos) != 1 || loopHeaderOf(gos[0]) != nil {
+		c.Fail(rule, key+"/one-goroutine", fn.Pos(), fmt.Sprintf("%d goroutines are started per queue (expected exactly one, outside any loop): messages of one object are handled concurrently", len(gos)))
+		return
+	}
+	var g *ssa.Function
+	switch v := gos[0].Call.Value.(type) {
+	case *ssa.MakeClosure:
+		g, _ = v.Fn.(*ssa.Function)
+	case *ssa.Function:
+		g = v
+	}
+	if g == nil {
+		c.Undecided(rule, key+"/one-goroutine", gos[0].Pos(), "cannot resolve the mailbox goroutine")
+		return
+	}
+	c.Pass(rule, key+"/one-goroutine", gos[0].Pos(), "one goroutine per mailbox")
+	bad := ""
+	nRecv := 0
+	var walk func(f *ssa.Function, depth int)
+	walk = func(f *ssa.Function, depth int) {
+		for _, call := range core.Calls(f) {
+			cc := call.Common()
+			if _, isGo := call.(*ssa.Go); isGo {
+				bad = "the goroutine draining the queue starts another goroutine (at " + c.Pos(call.Pos()) + "): two messages of one object are then handled concurrently (validate/save/notify of two writes interleave, subscribers see different orders), and a goroutine started in a range loop shares the loop variable (go.mod says go 1.13): one message is handled twice and another never"
+			}
+			if cc.IsInvoke() && cc.Method.Name() == "Receive" {
+				nRecv++
+				if _, plain := call.(*ssa.Call); !plain {
+					bad = "the Receiver is not invoked by a plain call"
+				}
+				if loopHeaderOf(call.(ssa.Instruction)) == nil && f == g {
+					bad = "the Receiver is not invoked from the receive loop"
+				}
+			}
+		}
+		if depth < 2 {
+			for _, a := range core.AnonFuncs(f) {
+				walk(a, depth+1)
+			}
+		}
+	}
+	walk(g, 0)
+	if nRecv == 0 && bad == "" {
+		bad = "the mailbox goroutine never hands a mail to the Receiver"
+	}
+	c.Check(bad == "", rule, key+"/serial", g.Pos(), "each mail is handed to the Receiver by a plain call in the receive loop; no other goroutine is started", bad)
 }
